@@ -6,11 +6,14 @@ From Errdef Require Import Base.Str Model.Core Model.GoErrors Model.Prog.
    their whole capacity; mutating those slices afterwards changes nothing) *)
 Record case := { c_prog : list stmt; c_steps : list (bool * bool * bool);
                  c_details : bool;     (* mutating a Details map after Define is harmless *)
-                 c_resolver : bool }.  (* resolver.New neither writes nor keeps aliasing the caller's slice *)
+                 c_resolver : bool;    (* resolver.New neither writes nor keeps aliasing the caller's slice *)
+                 c_restored : bool }.  (* inspecting the restored copy (JSON round trip, all fields unknown) of every
+                                          errdef error through typed extractors, Get, FindKeys and renderers
+                                          leaves it unchanged *)
 
 Definition ok (c : case) : bool :=
   prog_ok (c_prog c) && Nat.eqb (List.length (c_steps c)) (List.length (c_prog c)) &&
-  forallb (fun s => fst (fst s) && snd (fst s) && snd s) (c_steps c) && c_details c && c_resolver c.
+  forallb (fun s => fst (fst s) && snd (fst s) && snd s) (c_steps c) && c_details c && c_resolver c && c_restored c.
 
 (* the model is purely functional: a statement returns new pools that extend the old ones
    (Proofs/C04Proofs.v), so it predicts "unchanged" for every step *)
